@@ -553,6 +553,43 @@ func extractFire(c *core.Ctx, a *Anchors, f *core.Func) *firePred {
 	return fp
 }
 
+// breakTruth is truthAt for a branch statement (which is an edge, not a node, of the control-flow graph): what is
+// known at the statement in front of it, or - when it is the first statement of an if branch - what that branch
+// assumes on top of what is known at the if.
+func breakTruth(m *core.Model, f *core.Func, br *ast.BranchStmt, isAtom func(ast.Expr) bool) int {
+	list, idx := enclosingStmtList(f, br)
+	if idx > 0 {
+		return truthAt(m, f, list[idx-1], isAtom)
+	}
+	res := 0
+	core.InspectNoLits(f.Body, func(n ast.Node) bool {
+		is, ok := n.(*ast.IfStmt)
+		if !ok {
+			return true
+		}
+		inThen := len(is.Body.List) > 0 && is.Body.List[0] == ast.Stmt(br)
+		inElse := false
+		if eb, ok := is.Else.(*ast.BlockStmt); ok && len(eb.List) > 0 && eb.List[0] == ast.Stmt(br) {
+			inElse = true
+		}
+		if !inThen && !inElse {
+			return true
+		}
+		res = truthAt(m, f, is.Cond, isAtom)
+		for _, a := range core.Assume(is.Cond, inThen) {
+			if isAtom(a.Expr) {
+				if a.Truth {
+					res = 1
+				} else {
+					res = -1
+				}
+			}
+		}
+		return true
+	})
+	return res
+}
+
 // condTerm is a condition that must have the given truth value.
 type condTerm struct {
 	e    ast.Expr
@@ -1622,7 +1659,22 @@ func c08r4(c *core.Ctx) {
 					}
 					return true
 				})
-				if sawWild && sawOr {
+				// the rebuild may stop early only because this aggregate has become a wildcard: a break reached with
+				// the observer known to have an X-condition (or with nothing known about it - a break that belongs to
+				// the other aggregate of a fused loop) cuts the union short
+				earlyStop := false
+				ast.Inspect(xBody, func(y ast.Node) bool {
+					switch z := y.(type) {
+					case *ast.FuncLit, *ast.ForStmt, *ast.RangeStmt:
+						return y == ast.Node(xBody)
+					case *ast.BranchStmt:
+						if z.Tok == token.BREAK && breakTruth(m, owner, z, hasX) != -1 {
+							earlyStop = true
+						}
+					}
+					return true
+				})
+				if sawWild && sawOr && !earlyStop {
 					loopOK = true
 				}
 			}
